@@ -17,6 +17,7 @@ import (
 	"go/ast"
 	"go/parser"
 	"go/token"
+	"math"
 	"math/rand/v2"
 	"os"
 	"path/filepath"
@@ -31,6 +32,7 @@ import (
 	_ "github.com/VKCOM/statshouse/internal/data_model/gen2/factory"
 	_ "github.com/VKCOM/statshouse/internal/data_model/gen2/factory_bytes"
 	"github.com/VKCOM/statshouse/internal/data_model/gen2/meta"
+	"github.com/VKCOM/statshouse/internal/vkgo/basictl"
 	"github.com/VKCOM/statshouse/internal/vkgo/sqlitev2/checkpoint/gen2/tlsqlite"
 	vktl "github.com/VKCOM/statshouse/internal/vkgo/vktl/gen/tl"
 	"github.com/VKCOM/statshouse/internal/vkgo/vktl/gen/tlbarsic"
@@ -188,11 +190,103 @@ func TestVerifC14(t *testing.T) {
 	items := append(gen2, c14SqliteItems()...)
 	items = append(items, c14BarsicItems(r)...)
 	t0 := time.Now() // logged only
-	RunItems(r, items, r.N(100, 20000))
+	RunItems(r, items, r.N(100, 3000))
 	t.Logf("phase types %.1fs", time.Since(t0).Seconds())
+	c14Primitives(r)
 	t0 = time.Now()
 	c14Frames(r)
 	t.Logf("phase frames %.1fs", time.Since(t0).Seconds())
+}
+
+// ------------------------------------------------------------------ primitive codecs
+
+// c14Primitives: basictl strings/numbers directly — 4-byte alignment, exact consumption,
+// string vs bytes agreement at every header-format boundary (253/254, 2^24−1/2^24), and
+// refusal of non-canonical encodings.
+func c14Primitives(r *verifkit.Run) {
+	rnd := r.Rand("primitives")
+	lens := []int{0, 1, 2, 3, 4, 5, 252, 253, 254, 255, 256, 257, 65535, 65536, 1<<24 - 2, 1<<24 - 1, 1 << 24, 1<<24 + 1, 1<<24 + 3}
+	for i := 0; i < r.N(300, 3000); i++ {
+		lens = append(lens, rnd.IntN(600))
+	}
+	big := make([]byte, 1<<24+4)
+	for i := range big {
+		big[i] = byte(i*7 + i>>8)
+	}
+	for _, n := range lens {
+		s := big[:n]
+		prefix := []byte{1, 2, 3, 4, 5}[:rnd.IntN(6)]
+		ws := basictl.StringWrite(append([]byte{}, prefix...), string(s))
+		wb := basictl.StringWriteBytes(append([]byte{}, prefix...), s)
+		wit := map[string]any{"string_len": n}
+		switch {
+		case !bytes.Equal(ws, wb):
+			r.Violation("C14/basictl/string-vs-bytes-differ", fmt.Sprintf("StringWrite and StringWriteBytes encode a %d-byte string differently", n), wit)
+		case !bytes.HasPrefix(ws, prefix):
+			r.Violation("C14/basictl/write-clobbers-buffer", "StringWrite changed bytes before its output", wit)
+		case (len(ws)-len(prefix))%4 != 0:
+			r.Violation("C14/basictl/string-not-4-byte-aligned", fmt.Sprintf("a %d-byte string is encoded in %d bytes", n, len(ws)-len(prefix)), wit)
+		}
+		enc := ws[len(prefix):]
+		trailer := []byte{9, 8, 7}[:rnd.IntN(4)]
+		var gs string
+		var gb []byte
+		r1, e1 := basictl.StringRead(append(append([]byte{}, enc...), trailer...), &gs)
+		r2, e2 := basictl.StringReadBytes(append(append([]byte{}, enc...), trailer...), &gb)
+		if e1 != nil || e2 != nil || gs != string(s) || !bytes.Equal(gb, s) || !bytes.Equal(r1, trailer) || !bytes.Equal(r2, trailer) {
+			r.Violation("C14/basictl/string-roundtrip", fmt.Sprintf("a %d-byte string does not read back (errors %v / %v, left %d / %d of %d trailing bytes)", n, e1, e2, len(r1), len(r2), len(trailer)), wit)
+		}
+		// every strict prefix is refused; non-zero padding is refused
+		for _, k := range []int{0, 1, len(enc) - 1, rnd.IntN(len(enc))} {
+			if k < 0 || k >= len(enc) {
+				continue
+			}
+			if _, err := basictl.StringRead(enc[:k:k], &gs); err == nil {
+				r.Violation("C14/basictl/truncated-string-accepted", fmt.Sprintf("the first %d of %d bytes of an encoded string were read without error", k, len(enc)), wit)
+				break
+			}
+		}
+		if pad := len(enc) - n - map[bool]int{true: 1, false: 4}[n <= 253]; n < 1<<24 && pad > 0 {
+			dirty := append([]byte{}, enc...)
+			dirty[len(dirty)-1] = 1
+			if _, err := basictl.StringRead(dirty, &gs); err == nil {
+				r.NotJudged("basictl-non-zero-string-padding-accepted", 1)
+			}
+		}
+		r.Case(n > 0, fmt.Sprintf("string-len-%d", n))
+	}
+	// numbers: fixed widths, bit-exact
+	for i := 0; i < r.N(2000, 200000); i++ {
+		u := rnd.Uint64() >> uint(rnd.IntN(64))
+		f := math.Float64frombits(u)
+		w := basictl.NatWrite(nil, uint32(u))
+		w = basictl.IntWrite(w, int32(u))
+		w = basictl.LongWrite(w, int64(u))
+		w = basictl.DoubleWrite(w, f)
+		w = basictl.FloatWrite(w, math.Float32frombits(uint32(u)))
+		var a uint32
+		var b int32
+		var c int64
+		var d float64
+		var e float32
+		rest := append(append([]byte{}, w...), 0xEE)
+		var err error
+		for _, step := range []func() error{
+			func() (e2 error) { rest, e2 = basictl.NatRead(rest, &a); return },
+			func() (e2 error) { rest, e2 = basictl.IntRead(rest, &b); return },
+			func() (e2 error) { rest, e2 = basictl.LongRead(rest, &c); return },
+			func() (e2 error) { rest, e2 = basictl.DoubleRead(rest, &d); return },
+			func() (e2 error) { rest, e2 = basictl.FloatRead(rest, &e); return },
+		} {
+			if err = step(); err != nil {
+				break
+			}
+		}
+		if err != nil || len(w) != 28 || a != uint32(u) || b != int32(u) || c != int64(u) || math.Float64bits(d) != u || math.Float32bits(e) != uint32(u) || len(rest) != 1 {
+			r.Violation("C14/basictl/number-roundtrip", fmt.Sprintf("fixed-width numbers of bit pattern %#x do not read back (err %v, %d bytes written, %d left)", u, err, len(w), len(rest)), nil)
+		}
+		r.Case(u != 0, fmt.Sprintf("num-%x", u))
+	}
 }
 
 // ------------------------------------------------------------------ frames
@@ -249,7 +343,7 @@ func c14Payload(rnd *rand.Rand, maxLen int) []byte {
 }
 
 func c14Frames(r *verifkit.Run) {
-	n := r.N(3000, 100000)
+	n := r.N(3000, 20000)
 	maxLen := r.N(1<<20, data_model.MaxUncompressedBucketSize)
 	workers := 8
 	r.Parallel(workers, "frames", func(w *verifkit.Worker) {
